@@ -937,6 +937,9 @@ class SymInt:
         return mk(as_z3_int(o) - self.e)
 
     def __mul__(self, o):
+        if isinstance(o, (list, bytes, bytearray, tuple)) and len(o) == 1 and isinstance(o[0], int):
+            # [c] * n: a sequence of max(n, 0) copies of the constant c
+            return repeat_seq(o[0], self, type(o).__name__)
         if not isinstance(o, (int, SymInt, SymBool)):
             return NotImplemented
         co = _concrete(o)
@@ -1246,6 +1249,19 @@ def empty_seq():
     return z3.Empty(ISeq)
 
 
+def repeat_seq(value, n, kind="list"):
+    """a sequence of max(n, 0) copies of the concrete integer `value` (n symbolic): a fresh sequence
+    constant constrained by its length and by every element being `value`"""
+    c = ctx()
+    z = z3.Const(c.fresh_name("rep"), ISeq)
+    j = z3.Int(c.fresh_name("rj"))
+    ne = as_z3_int(n)
+    c.assume(z3.Length(z) == z3.If(ne > 0, ne, z3.IntVal(0)))
+    c.assume(z3.ForAll([j], z3.Implies(z3.And(j >= 0, j < z3.Length(z)), z[j] == value)))
+    c.ghost.setdefault("rep_consts", {})[z.get_id()] = value      # lets spec.seq_at answer element queries without the quantifier
+    return SymSeq(z, kind, (value, value + 1))
+
+
 class SymSeq:
     """A sequence of integers with symbolic length (z3 Seq(Int)).
 
@@ -1546,6 +1562,20 @@ class SymSeq:
         self.elem_bounds = self._join_bounds(v)
         self.e = z3.Concat(z3.SubSeq(self.e, 0, ei), z3.Unit(as_z3_int(v)),
                            z3.SubSeq(self.e, ei + 1, n - ei - 1))
+
+    def pop(self, i=-1):
+        assert self.kind in ("list", "bytearray")
+        ei = as_z3_int(i)
+        n = z3.Length(self.e)
+        c = ctx()
+        if c.decide(ei < 0):
+            ei = ei + n
+        if not c.decide(z3.And(ei >= 0, ei < n)):
+            raise IndexError("pop index out of range")
+        r = mk(self.e[ei])
+        self._assume_elem(r)
+        self.e = z3.simplify(z3.Concat(z3.SubSeq(self.e, 0, ei), z3.SubSeq(self.e, ei + 1, n - ei - 1)))
+        return r
 
     def __iter__(self):
         parts = self._parts()
